@@ -436,6 +436,11 @@ func skeleton(p *pkg, fd *ast.FuncDecl) []string {
 				deferred[fl] = true // the body of `defer func() {...}()` belongs to the function
 				res = append(res, "defer")
 			}
+		case *ast.GoStmt:
+			if fl, ok := x.Call.Fun.(*ast.FuncLit); ok {
+				deferred[fl] = true // so does, for our purposes, the body of `go func() {...}()`
+				res = append(res, "go")
+			}
 		case *ast.FuncLit:
 			return deferred[x]
 		case *ast.IncDecStmt:
@@ -443,6 +448,11 @@ func skeleton(p *pkg, fd *ast.FuncDecl) []string {
 		case *ast.CallExpr:
 			fn := exprStr(p.fset, x.Fun)
 			res = append(res, "call:"+fn)
+			if strings.HasSuffix(fn, "Once.Do") && len(x.Args) == 1 {
+				if fl, ok := x.Args[0].(*ast.FuncLit); ok {
+					deferred[fl] = true // the body run once is the function's real body
+				}
+			}
 			if fn == "hkdf.New" {
 				for _, a := range x.Args {
 					res = append(res, "arg:"+exprStr(p.fset, a))
@@ -955,6 +965,7 @@ func main() {
 	o.f("def skel_receivePacketsForever : List String := %s\n", leanStrList(skeleton(g, g.anyFunc("GoBackNConn", "receivePacketsForever"))))
 	o.f("def skel_serverHandshake : List String := %s\n", leanStrList(skeleton(g, g.anyFunc("GoBackNConn", "serverHandshake"))))
 	o.f("def skel_clientHandshake : List String := %s\n", leanStrList(skeleton(g, g.anyFunc("GoBackNConn", "clientHandshake"))))
+	o.f("def skel_start : List String := %s\n", leanStrList(skeleton(g, g.anyFunc("GoBackNConn", "start"))))
 	o.f("def skel_Send : List String := %s\n", leanStrList(skeleton(g, g.anyFunc("GoBackNConn", "Send"))))
 	o.f("def skel_Recv : List String := %s\n", leanStrList(skeleton(g, g.anyFunc("GoBackNConn", "Recv"))))
 	o.f("def typecases_resendReset_recvLoop : List String := %s\n", leanStrList(typeCasesOf(g,
@@ -1016,6 +1027,8 @@ func main() {
 		o.f("def gbnOptions_mailbox : List String := %s\n", leanStrList(opts))
 	}
 
+	o.f("def skel_ClientConnClose : List String := %s\n", leanStrList(skeleton(m, m.anyFunc("ClientConn", "Close"))))
+	o.f("def skel_ServerConnClose : List String := %s\n", leanStrList(skeleton(m, m.anyFunc("ServerConn", "Close"))))
 	// --- control skeletons of the record layer
 	for _, fn := range [][2]string{{"cipherState", "Encrypt"}, {"cipherState", "Decrypt"}, {"cipherState", "rotateKey"},
 		{"cipherState", "InitializeKey"}, {"Machine", "ReadHeader"}, {"Machine", "ReadBody"}, {"Machine", "WriteMessage"}} {
